@@ -169,6 +169,36 @@ RULE_MENU = ['e{f:g}', '@import "k.css";', '@namespace q "v";', '@charset "ascii
 INDEX_OPS = ['sheet.insertRule', 'sheet.deleteRule', 'media.insertRule', 'media.deleteRule', 'page.insertRule', 'page.deleteRule']
 
 
+def _pre_none(cssutils, sheet):
+    pass
+
+
+def _pre_add(cssutils, sheet):
+    sheet.add('zz{yy:xx}')
+    sheet.add('@media print{zm{ym:xm}}')
+
+
+def _pre_delete(cssutils, sheet):
+    sheet.deleteRule(_first(sheet, 'CSSComment'))
+    sheet.deleteRule(_first(sheet, 'CSSUnknownRule'))
+
+
+def _pre_edit(cssutils, sheet):
+    r = _first(sheet, 'CSSStyleRule')
+    r.style.setProperty('left', '5px', 'important')
+    r.selectorText = 'a, p|b, k > l'
+    _first(sheet, 'CSSMediaRule').media.appendMedium('projection')
+
+
+def _pre_namespace(cssutils, sheet):
+    sheet.namespaces['q'] = 'w'
+    sheet.encoding = 'ascii'
+
+
+# accepted mutations applied before the rejected one: "arbitrary prior state" within this menu
+PRE_OPS = [_pre_none, _pre_add, _pre_delete, _pre_edit, _pre_namespace]
+
+
 def fetcher(url):
     return 'utf-8', b'/*i*/'
 
@@ -219,7 +249,7 @@ def fill(template, holes):
     return out
 
 
-def run_reject(mid, tindex, n):
+def run_reject(mid, tindex, n, pre=0):
     cssutils = common.setup_lifted()
     import xml.dom
     from sx.symstr import fresh_str, reduced_alphabet
@@ -236,10 +266,11 @@ def run_reject(mid, tindex, n):
 
     def run():
         holes = [fresh_str(n, mask=amask) for _ in range(nholes)]
-        inputs = {'mutator': mid, 'template': tindex, 'holes': holes}
+        inputs = {'mutator': mid, 'template': tindex, 'holes': holes, 'pre': pre}
         common.set_inputs(inputs)
-        info = {'in': inputs, 'tags': []}
+        info = {'in': inputs, 'tags': ['pre:%d' % pre]}
         sheet = build(cssutils)
+        PRE_OPS[pre](cssutils, sheet)
         target = TARGETS[tname](sheet)
         before = snapshot(sheet, target)
         text = fill(template, holes)
@@ -259,7 +290,7 @@ def run_reject(mid, tindex, n):
         info['tags'].append('accepted')
         return True, info
 
-    return common.explore(run, 'reject(%s,%d,n=%d)' % (mid, tindex, n), path_timeout_s=120.0,
+    return common.explore(run, 'reject(%s,%d,n=%d,pre=%d)' % (mid, tindex, n, pre), path_timeout_s=120.0,
                           realise_cap=4096 if small else 64)
 
 
@@ -436,6 +467,8 @@ def jobs(tier):
             out.append(('harness.c11', 'run_reject', dict(mid=mid, tindex=i, n=1)))
             if tier != 'quick':
                 out.append(('harness.c11', 'run_reject', dict(mid=mid, tindex=i, n=2)))
+                for pre in range(1, len(PRE_OPS)):
+                    out.append(('harness.c11', 'run_reject', dict(mid=mid, tindex=i, n=1, pre=pre)))
     for op in INDEX_OPS:
         out.append(('harness.c11', 'run_index', dict(op=op)))
     out.append(('harness.c11', 'run_readonly', {}))
@@ -460,8 +493,8 @@ def main(tier):
                        'rules, namespaces), sheet.cssText, sheet.namespaces, sheet.encoding, the text of the target and the '
                        'owner links of the top-level rules', 'the @import target is served by a stub fetcher',
                        'log.raiseExceptions is True (the library default for DOM calls)']
-    rep.outside = ['namespace prefix / URI holes range over the %d characters %r only (they become dictionary keys)' % (len(SMALL_ALPHABET), SMALL_ALPHABET),
-                   'pre-states other than the fixed sheet', 'new content outside the templates', 'CSSVariablesRule, Value objects']
+    rep.outside = ['prior states: the fixed sheet, in the thorough tier also after one of %d accepted edit groups (PRE_OPS)' % (len(PRE_OPS) - 1), 'namespace prefix / URI holes range over the %d characters %r only (they become dictionary keys)' % (len(SMALL_ALPHABET), SMALL_ALPHABET),
+                    'new content outside the templates', 'CSSVariablesRule, Value objects']
     rep.witness_required = ['accepted', 'rejected:SyntaxErr', 'rejected:HierarchyRequestErr', 'rejected:NamespaceErr',
                             'rejected:IndexSizeErr', 'rejected:NoModificationAllowedErr', 'rejected:NotFoundErr',
                             'rejected:InvalidModificationErr', 'readonly']
@@ -515,6 +548,7 @@ def replay(case):
         return {'reproduced': False, 'detail': 'unchanged or accepted'}
     mid, tindex, holes = inp['mutator'], inp['template'], inp['holes']
     _, tname, fn, templates = MUT[mid]
+    PRE_OPS[inp.get('pre', 0)](cssutils, sheet)
     target = TARGETS[tname](sheet)
     before = snapshot(sheet, target)
     text = fill(templates[tindex], holes)
